@@ -40,6 +40,12 @@ def worker_env(scratch, seed):
     return env
 
 
+def meta_env(env, META, tier):
+    for k, v in META.get('env', {}).get(tier, {}).items():
+        env[k] = str(v)
+    return env
+
+
 def load_known():
     p = os.path.join(ROOT, 'known_findings.json')
     if not os.path.exists(p):
@@ -114,7 +120,7 @@ def do_check(prop, tier, seed, scratch, t0):
     META = meta.META
     budget = META.get('budget_s', {}).get(tier)
     timeout = META.get('timeout_s', {}).get(tier, 1500 if tier == 'quick' else 7200)
-    env = worker_env(scratch, seed)
+    env = meta_env(worker_env(scratch, seed), META, tier)
     procs = []
     nshards = min(NSHARDS, META.get('max_shards', NSHARDS))
     for s in range(nshards):
